@@ -72,7 +72,7 @@ def gen(rng: random.Random, tier: str, idx: int) -> dict:
                 # the transaction registers a PRE-BUILT file (append_files), possibly older than any grace period
                 part = rng.random() < 0.7      # partitioned layout: the same basename in every directory
                 ops.append({"kind": "tx_open", "id": nid, "tag": tag, "n": 1, "prebuilt": True,
-                            **({"dir": f"p={nid % 2 + 1}", "name": "pre_part0"} if part else {}),
+                            **({"dir": f"p={nid}", "name": "pre_part0"} if part else {}),   # one directory per file: a path is never re-used
                             "age": rng.choice([0.0, 4000.0, 8000.0]),
                             "spell": rng.choice(FILE_SPELLINGS if backend == "local" else FILE_SPELLINGS[:3])})
             else:
